@@ -260,7 +260,14 @@ def c03_6(ctx, ss):
     else:
         ctx.violation("C03.6", k, where(ff, ff.node), "CDecay names that already have a Decay block are not (exactly) the ones removed from the work list")
     # (b) source lookup inside try; append only on success; miss list in the handler
-    apps = [(st, args) for st, m, args in builder_sites(ff, flow, "trees_to_conjugate") if m == "append"]
+    # the list the deep copies are made from
+    src_name = None
+    for c in pf.calls_in(ff.node):
+        if txt(c.func) in ("copy.deepcopy", "deepcopy") and c.args and isinstance(c.args[0], ast.Name):
+            ds = flow.defs_of(c.args[0])
+            if len(ds) == 1 and ds[0].kind in ("comp", "for") and isinstance(ds[0].value, ast.Name):
+                src_name = ds[0].value.id
+    apps = [(st, args) for st, m, args in builder_sites(ff, flow, src_name) if m == "append"] if src_name else []
     if not apps:
         # find the list the deep copies are made from
         raise AnchorMissing("_add_charge_conjugate_decays: list of source trees not found")
